@@ -316,14 +316,17 @@ def zipMember (inflate : Bytes → Nat → Option Bytes) (junk : Bytes) (st : Zi
 /-- `write_bunzip_data(bd, bw, out, 0, 0)` over the decoded blocks `(headerCRC, bytes)` followed
     by the end-of-stream header carrying `streamCrc`, then the test in `decrunch_bzip2`.
 
-    As the code is: when `read_bunzip_data` meets the end-of-stream header, `write_bunzip_data`
-    sets `writeCount = RETVAL_LAST_BLOCK` and **returns `gotcount` (= 0 in file mode)**, so
-    `decrunch_bzip2`'s `if (i == RETVAL_LAST_BLOCK) { headerCRC == totalCRC ? … }` is not reached on
-    this path: the stored stream CRC is read but never compared.  `RETVAL_LAST_BLOCK` is only
-    returned after a block CRC mismatch (with `totalCRC` forced to `headerCRC + 1`).
-    This state of the source is the generated fact `Gen.bzStreamCrcDead` (recognised textually by
-    tools/gen_crc_tables.py; the two-sided correspondence on stream-CRC faults validates it); should
-    the comparison be repaired the model follows: `streamCrc ≠ total` then refuses. -/
+    Per block: `dataCRC` is compared with the block's `headerCRC`; on a mismatch
+    `totalCRC = headerCRC + 1; return RETVAL_LAST_BLOCK`, which `decrunch_bzip2` turns into a data
+    error (`headerCRC == totalCRC` cannot hold).  Otherwise `totalCRC = rotl(totalCRC,1) ^ dataCRC`.
+    At the end-of-stream header `read_bunzip_data` has stored the stream CRC in `headerCRC` and
+    returns RETVAL_LAST_BLOCK; since /repo b6ac87c `write_bunzip_data` passes that on in file mode
+    (`return len_ ? gotcount : i`), so `decrunch_bzip2` compares `headerCRC == totalCRC`.
+
+    Before that repair the function returned `gotcount` (= 0) there and the stored stream CRC was
+    never compared; that state of the source is the generated fact `Gen.bzStreamCrcDead`
+    (recognised textually by tools/gen_crc_tables.py, `false` at HEAD; the two-sided correspondence
+    on stream-CRC faults validates it).  The model follows the fact. -/
 def bzRun (total : BitVec 32) (acc : Bytes) : List (BitVec 32 × Bytes) → BitVec 32 → Option Bytes
   | [], streamCrc => if !Gen.bzStreamCrcDead && streamCrc ≠ total then none else some acc
   | (hc, d) :: rest, streamCrc =>
@@ -377,5 +380,409 @@ def xzAccept (hdr blockHdr : Bytes) (chunks : List Bytes) (check : Nat) (index :
     if xzBlockHeaderOk blockHdr && xzBlockCheck chunks check && xzIndexOk index indexCrc
         && xzFooterOk footer index.length 1 then some chunks.flatten else none
   | _ => none
+
+/-! ## xz container, byte level (`xz_dec_stream.c` as driven by `decrunch_xz`, unxz.c)
+
+Build configuration of libxmp (xz_config.h): `XZ_DEC_ANY_CHECK` defined, `XZ_USE_CRC64` and the BCJ
+filters not.  The LZMA2 decoder (`xz_dec_lzma2_reset` + the `xz_dec_lzma2_run` calls of one block) is
+the parameter `lz props input`: `input` = the archive from the first byte of the block's compressed
+data to its end; the answer `some (consumed, pieces)` = number of input bytes used when
+`xz_dec_lzma2_run` returned XZ_STREAM_END and the output in the pieces it was produced in (one per
+`dec_block` call: the running CRC-32 `s->crc` is fed piecewise); `none` = any error (reset refused
+the dictionary byte, LZMA2 data error, input exhausted).
+
+Everything else is modelled on the bytes of the file: Stream Header (magic, flags, CRC-32), Block
+Header (size byte, CRC-32, flags, optional sizes as VLIs, filter flags, header padding), the size
+comparisons of `dec_block`, Block Padding, the Check field (CRC-32 compared, other types skipped by
+`check_sizes[]`), the Index (count = number of blocks, records, padding, the running
+`xz_dec_hash` comparison, CRC-32), the Stream Footer (magic, CRC-32, Backward Size, flags = header
+flags).  Input is consumed strictly left to right; needing a byte past the end of the file is a
+failure (`hio_read` returns 0 → `goto err`).  Bytes after the Stream Footer are never read.
+Not modelled: `XZ_MAX_OUTPUT` (the 512 MiB output ceiling of `decrunch_xz`) and allocation failures
+(they only add ways to fail). -/
+
+/-- `check_sizes[16]` -/
+def xzCheckSize (t : Nat) : Nat :=
+  if t == 0 then 0 else if t ≤ 3 then 4 else if t ≤ 6 then 8 else if t ≤ 9 then 16 else if t ≤ 12 then 32 else 64
+
+/-- `dec_vli` on `f[p .. limit)`: at most `VLI_BYTES_MAX = 9` bytes, 7 bits each, least significant
+    group first; a final zero byte after the first is a non-minimal encoding.  `(value, position
+    after)`; `none` = XZ_DATA_ERROR or the input ran out. -/
+def xzVliGo (f : Bytes) (limit : Nat) : Nat → Nat → Nat → Nat → Option (Nat × Nat)
+  | 0, _, _, _ => none
+  | fuel + 1, p, sh, acc =>
+    if limit ≤ p then none else
+    let b := u8 f p
+    let acc := acc ||| ((b &&& 0x7f) <<< sh)
+    if b &&& 0x80 == 0 then (if b == 0 && sh != 0 then none else some (acc, p + 1))
+    else if sh + 7 == 63 then none else xzVliGo f limit fuel (p + 1) (sh + 7) acc
+
+def xzVli (f : Bytes) (p limit : Nat) : Option (Nat × Nat) := xzVliGo f limit 9 p 0 0
+
+def leBytes (n v : Nat) : Bytes := (List.range n).map fun i => UInt8.ofNat (v / 256 ^ i % 256)
+
+/-- `struct xz_dec_hash { vli_type unpadded; vli_type uncompressed; uint32 crc32; }` -/
+structure XzHash where
+  unpadded : Nat := 0
+  uncompressed : Nat := 0
+  crc : BitVec 32 := 0
+deriving DecidableEq
+
+/-- `h.unpadded += a; h.uncompressed += b; h.crc32 = xz_crc32(&h, sizeof(h), h.crc32)`: the struct
+    is 24 bytes on the LP64 little-endian target — two `uint64`, the `uint32`, four bytes of padding
+    (zeroed by `xz_dec_reset`'s `memzero`, never written) -/
+def xzHashUpd (h : XzHash) (a b : Nat) : XzHash :=
+  let u := (h.unpadded + a) % 2 ^ 64
+  let c := (h.uncompressed + b) % 2 ^ 64
+  { unpadded := u, uncompressed := c,
+    crc := crc32A (leBytes 8 u ++ leBytes 8 c ++ leBytes 4 h.crc.toNat ++ [0, 0, 0, 0]) h.crc }
+
+structure XzBlockHdr where
+  size : Nat             -- Block Header Size in bytes, incl. the CRC-32
+  comp : Option Nat      -- Compressed Size field, if present
+  uncomp : Option Nat    -- Uncompressed Size field, if present
+  props : Nat            -- LZMA2 dictionary size byte
+deriving DecidableEq
+
+/-- optional VLI field of the block header -/
+def xzOptVli (present : Bool) (f : Bytes) (q lim : Nat) : Option (Option Nat × Nat) :=
+  if present then (match xzVli f q lim with
+                   | none => none
+                   | some (v, q') => some (some v, q'))
+  else some (none, q)
+
+/-- `dec_block_header` for the header starting at `p` (the caller saw `f[p] ≠ 0`) -/
+def xzBlockHeaderAt (f : Bytes) (p : Nat) : Option XzBlockHdr :=
+  let hs := (u8 f p + 1) * 4
+  if f.length < p + hs then none else
+  let lim := p + (hs - 4)
+  if (crc32A (slice f p (hs - 4)) 0).toNat ≠ le32 f lim then none else
+  let fl := u8 f (p + 1)
+  if fl &&& 0x3F ≠ 0 then none else
+  match xzOptVli (fl &&& 0x40 != 0) f (p + 2) lim with
+  | none => none
+  | some (comp, q) =>
+  match xzOptVli (fl &&& 0x80 != 0) f q lim with
+  | none => none
+  | some (uncomp, q) =>
+    if lim - q < 2 then none else
+    if u8 f q ≠ 0x21 then none else
+    if u8 f (q + 1) ≠ 0x01 then none else
+    if lim - (q + 2) < 1 then none else
+    if (slice f (q + 3) (lim - (q + 3))).any (· != 0) then none else
+    some { size := hs, comp := comp, uncomp := uncomp, props := u8 f (q + 2) }
+
+/-- one decoded Block -/
+structure XzBlk where
+  pos : Nat                -- offset of the Block Header
+  hdr : XzBlockHdr
+  consumed : Nat           -- compressed bytes used by the LZMA2 decoder
+  chunks : List Bytes      -- its output, piecewise
+  checkPos : Nat           -- offset of the Check field
+  next : Nat               -- offset after the Check field
+
+/-- `x == v` for a present header field (VLI_UNKNOWN compares as "anything") -/
+def xzSizeOk (field : Option Nat) (seen : Nat) : Bool :=
+  match field with
+  | some v => v == seen
+  | none => true
+
+/-- SEQ_BLOCK_HEADER … SEQ_BLOCK_CHECK for the block at `p`; `ct` = check type of the stream -/
+def xzBlockAt (lz : Nat → Bytes → Option (Nat × List Bytes)) (ct : Nat) (f : Bytes) (p : Nat) : Option XzBlk :=
+  match xzBlockHeaderAt f p with
+  | none => none
+  | some h =>
+    let d := p + h.size
+    match lz h.props (f.drop d) with
+    | none => none
+    | some (c, chunks) =>
+      if f.length < d + c then none else
+      if !xzSizeOk h.comp c then none else
+      if !xzSizeOk h.uncomp (chunks.map List.length).sum then none else
+      let padn := (4 - c % 4) % 4
+      if f.length < d + c + padn then none else
+      if (slice f (d + c) padn).any (· != 0) then none else
+      let cp := d + c + padn
+      if ct == 1 then
+        (if f.length < cp + 4 then none else
+         if (chunks.foldl (fun crc x => crc32A x crc) 0).toNat ≠ le32 f cp then none else
+         some { pos := p, hdr := h, consumed := c, chunks := chunks, checkPos := cp, next := cp + 4 })
+      else
+        (if f.length < cp + xzCheckSize ct then none else
+         some { pos := p, hdr := h, consumed := c, chunks := chunks, checkPos := cp, next := cp + xzCheckSize ct })
+
+/-- SEQ_BLOCK_START loop: blocks until the Index Indicator byte `0x00`; `(index position, blocks)`.
+    `fuel`: every block consumes ≥ 8 bytes. -/
+def xzBlocks (lz : Nat → Bytes → Option (Nat × List Bytes)) (ct : Nat) (f : Bytes) : Nat → Nat → Option (Nat × List XzBlk)
+  | 0, _ => none
+  | fuel + 1, p =>
+    if f.length ≤ p then none else
+    if u8 f p == 0 then some (p, []) else
+    match xzBlockAt lz ct f p with
+    | none => none
+    | some b =>
+      match xzBlocks lz ct f fuel b.next with
+      | none => none
+      | some (ip, bs) => some (ip, b :: bs)
+
+/-- `s->block.hash` after the given blocks -/
+def xzBlocksHash (ct : Nat) (bs : List XzBlk) : XzHash :=
+  bs.foldl (fun h b => xzHashUpd h (b.hdr.size + b.consumed + xzCheckSize ct) (b.chunks.map List.length).sum) {}
+
+/-- the Records of the Index (`dec_index`), `n` of them remain; `(position after, s->index.hash)` -/
+def xzIndexRecords (f : Bytes) : Nat → Nat → XzHash → Option (Nat × XzHash)
+  | 0, p, h => some (p, h)
+  | n + 1, p, h =>
+    match xzVli f p f.length with
+    | none => none
+    | some (unp, q) =>
+      match xzVli f q f.length with
+      | none => none
+      | some (unc, r) => xzIndexRecords f n r (xzHashUpd h unp unc)
+
+/-- SEQ_INDEX, SEQ_INDEX_PADDING, SEQ_INDEX_CRC32 for the Index at `ip` (`f[ip] = 0`), after `count`
+    blocks with hash `bh`: offset of the Stream Footer -/
+def xzIndexAt (f : Bytes) (ip count : Nat) (bh : XzHash) : Option Nat :=
+  match xzVli f (ip + 1) f.length with
+  | none => none
+  | some (cnt, q) =>
+    if cnt ≠ count then none else
+    match xzIndexRecords f count q {} with
+    | none => none
+    | some (r, ih) =>
+      let padn := (4 - (r - ip) % 4) % 4
+      if f.length < r + padn then none else
+      if (slice f r padn).any (· != 0) then none else
+      let e := r + padn
+      if ih ≠ bh then none else
+      if f.length < e + 4 then none else
+      if (crc32A (slice f ip (e - ip)) 0).toNat ≠ le32 f e then none else some (e + 4)
+
+/-- the accepted structure of an xz file -/
+structure XzParse where
+  ct : Nat                 -- check type (Stream Flags byte 2)
+  blocks : List XzBlk
+  indexPos : Nat           -- offset of the Index Indicator
+  footerPos : Nat          -- offset of the Stream Footer (the Index CRC-32 is at `footerPos - 4`)
+
+/-- everything `xz_dec_run` does until XZ_STREAM_END -/
+def xzParse (lz : Nat → Bytes → Option (Nat × List Bytes)) (f : Bytes) : Option XzParse :=
+  if f.length < 12 then none else
+  match xzStreamHeader f with
+  | none => none
+  | some ct =>
+    match xzBlocks lz ct f f.length 12 with
+    | none => none
+    | some (ip, bs) =>
+      match xzIndexAt f ip bs.length (xzBlocksHash ct bs) with
+      | none => none
+      | some fp =>
+        if f.length < fp + 12 then none else
+        if xzFooterOk (slice f fp 12) (fp - 4 - ip) ct then some { ct := ct, blocks := bs, indexPos := ip, footerPos := fp }
+        else none
+
+def XzParse.output (P : XzParse) : Bytes := (P.blocks.map (fun b => b.chunks.flatten)).flatten
+
+/-- `decrunch_xz` -/
+def xzDepack (lz : Nat → Bytes → Option (Nat × List Bytes)) (f : Bytes) : Option Bytes :=
+  (xzParse lz f).map XzParse.output
+
+/-! ## zip, the whole reader (`decrunch_zip` in unzip.c over miniz_zip.c)
+
+`mz_zip_reader_init` (search of the End Of Central Directory record from the end of the file,
+zip64 locator/header, central-directory walk with its sanity tests), the member selection loop of
+`decrunch_zip` (directories, unsupported methods/flags, excluded names are skipped),
+`mz_zip_file_stat_internal` (sizes possibly taken from a zip64 extended-information field),
+`mz_zip_reader_extract_to_heap` → `mz_zip_reader_extract_to_mem_no_alloc1` (`zipExtract` above): the
+**local file header** is only used for its signature and its name/extra lengths (to find the
+data); its CRC/size fields and any **data descriptor** after the data are never read by this
+reader — the central-directory record is the only authority for CRC-32 and sizes.
+
+Parameters: `inflate comp cap` (tinfl over the member's compressed bytes into a buffer of `cap`
+bytes, `none` unless TINFL_STATUS_DONE), `excl` (`libxmp_exclude_match`), `junk n` (contents of a
+fresh `malloc(n)`, returned untouched for a member whose compressed size is 0).
+Not modelled: allocation failures (they only add ways to fail). -/
+
+def le64 (f : Bytes) (p : Nat) : Nat := le32 f p + 4294967296 * le32 f (p + 4)
+
+/-- lower end of the region `mz_zip_reader_locate_header_sig` scans: 4096-byte windows from the end,
+    each 4093 bytes further down, until offset 0 or ≥ 65535 + 22 bytes from the end -/
+def zipWindowLo (size : Nat) : Nat → Nat → Nat
+  | 0, w => w
+  | fuel + 1, w => if w == 0 || size - w ≥ 65557 then w else zipWindowLo size fuel (w - 4093)
+
+/-- highest position `p` with `lo ≤ p ≤ hi` holding the EOCD signature `PK\x05\x06` (the C scans
+    downwards and stops at the first hit that leaves room for the 22-byte record) -/
+def zipScanUp : Bytes → Nat → Nat → Option Nat → Option Nat
+  | a :: b :: c :: d :: rest, p, hi, best =>
+    if hi < p then best else
+    zipScanUp (b :: c :: d :: rest) (p + 1) hi
+      (if a == 0x50 && b == 0x4b && c == 0x05 && d == 0x06 then some p else best)
+  | _, _, _, best => best
+
+def zipFindEocd (f : Bytes) : Option Nat :=
+  if f.length < 22 then none else
+  let lo := zipWindowLo f.length 32 (f.length - 4096)
+  zipScanUp (f.drop lo) lo (f.length - 22) none
+
+structure ZipEocd where
+  total : Nat
+  onDisk : Nat
+  thisDisk : Nat
+  cdirDisk : Nat
+  cdirSize : Nat
+  cdirOfs : Nat
+
+/-- the EOCD record, overridden by the zip64 EOCD record when a zip64 locator precedes it -/
+def zipEocd (f : Bytes) : Option ZipEocd :=
+  match zipFindEocd f with
+  | none => none
+  | some e =>
+    let base : ZipEocd := { total := le16 f (e + 10), onDisk := le16 f (e + 8), thisDisk := le16 f (e + 4),
+                            cdirDisk := le16 f (e + 6), cdirSize := le32 f (e + 12), cdirOfs := le32 f (e + 16) }
+    if e ≥ 76 && le32 f (e - 20) == 0x07064b50 then
+      let o := le64 f (e - 12)
+      if o > f.length - 56 then none else
+      if le32 f o == 0x06064b50 then
+        (if le64 f (o + 4) < 44 then none else
+         if le32 f (e - 4) ≠ 1 then none else
+         if le64 f (o + 32) > 0xFFFFFFFF then none else
+         if le64 f (o + 24) > 0xFFFFFFFF then none else
+         if le64 f (o + 40) > 0xFFFFFFFF then none else
+         some { total := le64 f (o + 32), onDisk := le64 f (o + 24), thisDisk := le32 f (o + 16),
+                cdirDisk := le32 f (o + 20), cdirSize := le64 f (o + 40), cdirOfs := le64 f (o + 48) })
+      else some base
+    else some base
+
+/-- walk over an extra-data area: `none` = malformed (MZ_ZIP_INVALID_HEADER_OR_CORRUPTED),
+    `some (some d)` = data of the first zip64 extended-information field (id 1), `some none` = none found -/
+def zipFindZip64 : Nat → Bytes → Option (Option Bytes)
+  | 0, _ => some none
+  | fuel + 1, x =>
+    if x.length == 0 then some none else
+    if x.length < 4 then none else
+    if le16 x 2 + 4 > x.length then none else
+    if le16 x 0 == 1 then some (some (slice x 4 (le16 x 2)))
+    else zipFindZip64 fuel (x.drop (4 + le16 x 2))
+
+/-- the per-record sanity tests of `mz_zip_reader_read_central_dir` on the record at `p`, of which
+    `n` bytes of central directory remain; `hasExt` = `m_zip64_has_extended_info_fields`.
+    `(total header size, hasExt')` -/
+def zipCdirRecord (f : Bytes) (thisDisk p n : Nat) (hasExt : Bool) : Option (Nat × Bool) :=
+  if n < 46 || le32 f p != 0x02014b50 then none else
+  let comp := le32 f (p + 20)
+  let decomp := le32 f (p + 24)
+  let lho := le32 f (p + 42)
+  let fn := le16 f (p + 28)
+  let ext := le16 f (p + 30)
+  let scan : Option Bool :=
+    if !hasExt && ext != 0 && (max (max comp decomp) lho == 0xFFFFFFFF) then
+      (if 46 + fn + ext > n then none else
+       match zipFindZip64 (ext + 1) (slice f (p + 46 + fn) ext) with
+       | none => none
+       | some (some _) => some true
+       | some none => some false)
+    else some hasExt
+  match scan with
+  | none => none
+  | some hasExt' =>
+    if comp != 0xFFFFFFFF && decomp != 0xFFFFFFFF &&
+        ((le32 f (p + 10) == 0 && decomp != comp) || (decomp != 0 && comp == 0)) then none else
+    let disk := le16 f (p + 34)
+    if disk == 0xFFFF || (disk != thisDisk && disk != 1) then none else
+    if comp != 0xFFFFFFFF && lho + 30 + comp > f.length then none else
+    if le16 f (p + 8) &&& 8192 != 0 then none else
+    let tot := 46 + fn + ext + le16 f (p + 32)
+    if tot > n then none else some (tot, hasExt')
+
+/-- the record loop: offsets (in the file) of the `k` central-directory records -/
+def zipCdirLoop (f : Bytes) (thisDisk : Nat) : Nat → Nat → Nat → Bool → Option (List Nat)
+  | 0, _, _, _ => some []
+  | k + 1, p, n, hasExt =>
+    match zipCdirRecord f thisDisk p n hasExt with
+    | none => none
+    | some (tot, hasExt') =>
+      match zipCdirLoop f thisDisk k (p + tot) (n - tot) hasExt' with
+      | none => none
+      | some l => some (p :: l)
+
+/-- `mz_zip_reader_init`: the list of central-directory record offsets (`m_central_dir_offsets`) -/
+def zipOpen (f : Bytes) : Option (List Nat) :=
+  match zipEocd f with
+  | none => none
+  | some E =>
+    if E.total != E.onDisk then none else
+    if (E.thisDisk ||| E.cdirDisk) != 0 && (E.thisDisk != 1 || E.cdirDisk != 1) then none else
+    if E.cdirSize < (E.total * 46) % 2 ^ 32 then none else
+    if E.cdirOfs + E.cdirSize > f.length then none else
+    zipCdirLoop f E.thisDisk E.total E.cdirOfs E.cdirSize false
+
+def zipIsDir (f : Bytes) (p : Nat) : Bool :=
+  (le16 f (p + 28) != 0 && u8 f (p + 46 + le16 f (p + 28) - 1) == 0x2f) || (le32 f (p + 38) &&& 0x10 != 0)
+
+def zipSupported (f : Bytes) (p : Nat) : Bool :=
+  (le16 f (p + 10) == 0 || le16 f (p + 10) == 8) && le16 f (p + 8) &&& (1 ||| 64) == 0 && le16 f (p + 8) &&& 32 == 0
+
+/-- `mz_zip_reader_get_filename` into a 512-byte buffer, as a C string -/
+def zipName (f : Bytes) (p : Nat) : Bytes := cstr (slice f (p + 46) (min (le16 f (p + 28)) 511))
+
+/-- one optional 64-bit value of the zip64 extended-information field -/
+def zipTake64 (need : Bool) (cur : Nat) (d : Bytes) : Option (Nat × Bytes) :=
+  if need then (if d.length < 8 then none else some (le64 d 0, d.drop 8)) else some (cur, d)
+
+/-- `mz_zip_file_stat_internal` on the record at `p`: the stat and the local header offset -/
+def zipStat (f : Bytes) (p : Nat) : Option (ZipStat × Nat) :=
+  let comp := le32 f (p + 20)
+  let uncomp := le32 f (p + 24)
+  let lho := le32 f (p + 42)
+  let mk := fun (c u l : Nat) =>
+    (({ method := le16 f (p + 10), bitFlag := le16 f (p + 8), compSize := c, uncompSize := u, crc32 := le32 f (p + 16) } : ZipStat), l)
+  if max (max comp uncomp) lho == 0xFFFFFFFF && le16 f (p + 30) != 0 then
+    match zipFindZip64 (le16 f (p + 30) + 1) (slice f (p + 46 + le16 f (p + 28)) (le16 f (p + 30))) with
+    | none => none
+    | some none => some (mk comp uncomp lho)
+    | some (some d) =>
+      match zipTake64 (uncomp == 0xFFFFFFFF) uncomp d with
+      | none => none
+      | some (u, d) =>
+        match zipTake64 (comp == 0xFFFFFFFF) comp d with
+        | none => none
+        | some (c, d) =>
+          match zipTake64 (lho == 0xFFFFFFFF) lho d with
+          | none => none
+          | some (l, _) => some (mk c u l)
+  else some (mk comp uncomp lho)
+
+/-- local header at `lho`: signature, then the data offset from its name and extra lengths; the
+    compressed size must fit in the file.  Result: the file from the data offset on. -/
+def zipTail (f : Bytes) (st : ZipStat) (lho : Nat) : Option Bytes :=
+  if f.length < lho + 30 then none else
+  if le32 f lho != 0x04034b50 then none else
+  let d := lho + 30 + le16 f (lho + 26) + le16 f (lho + 28)
+  if d + st.compSize > f.length then none else some (f.drop d)
+
+structure ZipEnv where
+  inflate : Bytes → Nat → Option Bytes
+  excl : Bytes → Bool
+  junk : Nat → Bytes
+
+/-- the loop of `decrunch_zip`: first member that is a supported, non-excluded file; `none` = there
+    is none or its stat fails -/
+def zipSelect (env : ZipEnv) (f : Bytes) : List Nat → Option (Nat × ZipStat × Nat)
+  | [] => none
+  | p :: rest =>
+    if zipIsDir f p || !zipSupported f p || env.excl (zipName f p) then zipSelect env f rest else
+    match zipStat f p with
+    | none => none
+    | some (st, lho) => some (p, st, lho)
+
+/-- `decrunch_zip` -/
+def zipDepack (env : ZipEnv) (f : Bytes) : Option Bytes :=
+  match zipOpen f with
+  | none => none
+  | some offs =>
+    match zipSelect env f offs with
+    | none => none
+    | some (_, st, lho) => zipExtract env.inflate (env.junk st.uncompSize) st (zipTail f st lho)
 
 end Xmp.Gates
